@@ -18,6 +18,7 @@ TABLE = {}          # (generator identity, time) -> value, shared by all behavio
 class P(param.Parameterized):
     a = param.Number(default=0)
     b = param.Number(default=0)
+    c = param.Number(default=0, constant=True)
 
 
 class System:
@@ -72,6 +73,13 @@ class System:
                 return obj.param.inspect_value(pname)
             if n == "force":
                 return obj.param.force_new_dynamic_value(pname)
+            if n == "reject":
+                gen = obj.param.get_value_generator(pname)
+                try:
+                    obj.c = gen
+                except TypeError:
+                    return None
+                raise AssertionError("assigning to a constant parameter was not rejected")
             if n == "push":
                 obj.param._state_push()
             elif n == "pop":
@@ -113,4 +121,6 @@ class System:
 
 
 def replay(beh, opts):
+    if opts.get("nontrivial") == "rejected":
+        return _simple.run(System, beh, opts, nontrivial=lambda b: any(s["act"]["name"] == "reject" for s in b["steps"]))
     return _simple.run(System, beh, opts, nontrivial=lambda b: sum(1 for s in b["steps"] if s["act"]["name"] in ("read", "force")) >= 1)
